@@ -30,6 +30,32 @@ theorem foldl_congr_mem {α β : Type} (f g : β → α → β) (l : List α) (b
     rw [h b a (List.mem_cons_self)]
     exact ih _ (fun acc x hx => h acc x (List.mem_cons_of_mem _ hx))
 
+/-- the text-content builder: one more unit of fuel changes nothing once `fuel + depth` covers the
+    limit (calls are only made with `depth ≤ depthLimit + 1`: the check precedes every descent) -/
+theorem C01_text_fuel_suffices (fuel : Nat) (parent : Xml) (ut : Bool) (depth od : Nat)
+    (anc : List (List Attr)) (out : Out)
+    (hd : depth ≤ Generated.depthLimit + 1)
+    (h : Generated.depthLimit + 2 ≤ fuel + depth) :
+    buildText fuel parent ut depth od anc out = buildText (fuel + 1) parent ut depth od anc out := by
+  induction fuel generalizing parent ut depth od anc out with
+  | zero => omega
+  | succ f ih =>
+    rw [buildText, buildText]
+    apply foldl_congr_mem
+    intro acc c _
+    cases acc with
+    | error e => rfl
+    | ok o =>
+      simp only
+      by_cases hlim : depth > Generated.depthLimit
+      · simp only [hlim, if_true]
+      · simp only [hlim, if_false]
+        cases tagName? c with
+        | none => rfl
+        | some tag0 =>
+          simp only
+          split_ifs <;> first | rfl | exact ih _ _ _ _ _ _ (by omega) (by omega)
+
 /-- **The derived fuel suffices.**  Every recursive call of the builder increases `depth`, and
     `depth > depthLimit` is an error before anything else happens; hence with
     `fuel + depth ≥ depthLimit + 2` one more unit of fuel changes nothing: the out-of-fuel branch is
@@ -60,6 +86,7 @@ theorem C01_fuel_suffices (ctx : Ctx) (fuel : Nat) (node : Xml) (origin : Nat) (
           · simp only [h2, if_false]
             by_cases h3 : (normTag tag0 == "text") = true
             · simp only [h3, if_true]
+              exact C01_text_fuel_suffices _ _ _ _ _ _ _ (by omega) (by omega)
             · simp only [h3, if_false]
               by_cases h4 : (normTag tag0 == "use") = true
               · simp only [h4, if_true]
@@ -74,6 +101,72 @@ theorem C01_fuel_suffices (ctx : Ctx) (fuel : Nat) (node : Xml) (origin : Nat) (
                 cases acc with
                 | error e => rfl
                 | ok o => exact ih _ _ _ _ _ _ _ _ (by omega)
+
+/-- the text-content builder keeps the node count within the limit -/
+theorem C01_text_nodes_bounded (fuel : Nat) (parent : Xml) (ut : Bool) (depth od : Nat)
+    (anc : List (List Attr)) (out out' : Out)
+    (hc : out.count ≤ Generated.nodeLimit + 1)
+    (hb : buildText fuel parent ut depth od anc out = .ok out') :
+    out'.count ≤ Generated.nodeLimit + 1 := by
+  induction fuel generalizing parent ut depth od anc out out' with
+  | zero => simp [buildText] at hb
+  | succ f ih =>
+    rw [buildText] at hb
+    -- generalised fold invariant
+    revert hb
+    generalize hcs : parent.children = cs
+    clear hcs
+    have key : ∀ (cs : List Xml) (acc : Except BuildErr Out),
+        (∀ o, acc = .ok o → o.count ≤ Generated.nodeLimit + 1) →
+        ∀ o', cs.foldl (fun acc c =>
+          match acc with
+          | .error e => .error e
+          | .ok o =>
+            if depth > Generated.depthLimit then .error .nodesLimit
+            else
+              match tagName? c with
+              | none => .ok o
+              | some tag0 =>
+                let tag1 := if tag0 == "a" then "tspan" else tag0
+                if !(tag1 == "tspan" || tag1 == "tref" || tag1 == "textPath") then .ok o
+                else if tag1 == "textPath" && !ut then .ok o
+                else
+                  let isTref := tag1 == "tref"
+                  let tag := if isTref then "tspan" else tag1
+                  let attrs := copyAttrs tag anc false (xmlAttrs c)
+                  if o.count > Generated.nodeLimit then .error .nodesLimit
+                  else
+                    let o1 : Out := { nodes := o.nodes ++ [(od, tag, attrs)], count := o.count + 1 }
+                    if isTref then .ok o1
+                    else buildText f c false (depth + 1) (od + 1) (attrs :: anc) o1) acc = .ok o' →
+        o'.count ≤ Generated.nodeLimit + 1 := by
+      intro cs
+      induction cs with
+      | nil => intro acc hacc o' ho'; exact hacc o' (by simpa using ho')
+      | cons c cs ihc =>
+        intro acc hacc o' ho'
+        simp only [List.foldl_cons] at ho'
+        apply ihc _ _ o' ho'
+        intro o ho
+        cases acc with
+        | error e => simp at ho
+        | ok o0 =>
+          have h0 := hacc o0 rfl
+          simp only at ho
+          by_cases hlim : depth > Generated.depthLimit
+          · simp [hlim] at ho
+          · simp only [hlim, if_false] at ho
+            cases htag : tagName? c with
+            | none => simp only [htag] at ho; injection ho with ho; subst ho; exact h0
+            | some tag0 =>
+              simp only [htag] at ho
+              split_ifs at ho <;>
+                first
+                | (injection ho with ho; subst ho; exact h0)
+                | (injection ho with ho; subst ho; simp only; omega)
+                | exact ih _ _ _ _ _ _ _ (by simp only; omega) ho
+    intro hb
+    exact key cs _ (by intro o ho; injection ho with ho; subst ho; exact hc) _ hb
 
 /-- **The node limit bounds the tree.**  Whatever the document (any `use` expansion bomb), a
     successful build has at most `nodeLimit + 1` element nodes (+ the root node). -/
@@ -101,7 +194,8 @@ theorem C01_nodes_bounded (ctx : Ctx) (fuel : Nat) (node : Xml) (origin : Nat) (
           · simp only [h2, if_false] at hb
             have hc1 : out.count + 1 ≤ Generated.nodeLimit + 1 := by omega
             by_cases h3 : (normTag tag0 == "text") = true
-            · simp only [h3, if_true] at hb; injection hb with hb; subst hb; exact hc1
+            · simp only [h3, if_true] at hb
+              exact C01_text_nodes_bounded _ _ _ _ _ _ _ _ (by simpa using hc1) hb
             · simp only [h3, if_false] at hb
               by_cases h4 : (normTag tag0 == "use") = true
               · simp only [h4, if_true] at hb
